@@ -297,6 +297,7 @@ def run(shard: dict, ctx) -> None:
         if len(stream) < 6000:
             specs.append(("bytewise",))
         specs += [splits.random_spec(rng, len(stream), False) for _ in range(3)]
+        specs.append(splits.structural_spec(stream, rng))  # calls that begin with a flag and end right after an escape octet
         if len(stream) <= 40:
             specs += [("single", c) for c in range(1, len(stream))]
         for spec in specs:
